@@ -1276,7 +1276,9 @@ struct const_subarray : array_types<T, D, ElementPtr, Layout> {
 		BOOST_MULTI_ASSERT(((first==last) || this->extension().contains(last - 1)) && ("sliced last  out of bounds"));  // NOLINT(cppcoreguidelines-pro-bounds-array-to-pointer-decay,hicpp-no-array-decay) : normal in a constexpr function
 		typename types::layout_t new_layout = this->layout();
 		new_layout.nelems() = this->stride()*(last - first);  // TODO(correaa) : reconstruct layout instead of mutating it
-		BOOST_MULTI_ASSERT(this->base_ || ((first*this->layout().stride() - this->layout().offset()) == 0) );  // it is UB to offset a nullptr
+		if constexpr(std::is_pointer_v<ElementPtr>) {  // other pointer types (e.g. the transforming pointer of element_transformed) are not testable as bool
+			BOOST_MULTI_ASSERT(this->base_ || ((first*this->layout().stride() - this->layout().offset()) == 0) );  // it is UB to offset a nullptr
+		}
 
 		#if defined(__clang__)
 		#pragma clang diagnostic push
